@@ -38,6 +38,7 @@ var imports = map[string][]importSpec{
 	"C02": {
 		{"C01", `^C01\.c$`, ``, "a decoded value equals the encoded one only as long as it owns its storage: a value that aliases the decoder's input changes when the buffer is reused"},
 		{"C01", `^C01\.b$`, ``, "the decoder accepts the whole encoding: the consumed length it reports lies within the input"},
+		{"C11", `^C11\.decode$`, ``, "the cEMI part of a frame decodes back: length-prefixed additional info, transport unit fields and lengths, fixed field order"},
 		{"C15", `^C15\.string$`, ``, "a name field that overflows its 30 octets overwrites the neighbouring field of the encoding"},
 	},
 	"C03": {
@@ -158,4 +159,5 @@ func runImports(c *Check, p *Program, id string) {
 	}
 	sort.Strings(lines)
 	c.Extra("imported_rules", lines)
+	c.Explanation += fmt.Sprintf(" In addition %d rule group(s) defined under other properties are evaluated here because this property relies on them (coverage.imported_rules gives rule, obligation count and reason); they decide nothing new, they make this check report a break that reaches the property through a lower layer.", len(lines))
 }
